@@ -227,6 +227,8 @@ func expectedOutcome(f *Finding) string {
 		return "no-result" // must not finish within the time limit (or die of memory exhaustion)
 	case "alloc":
 		return "alloc"
+	case "fatal":
+		return "process-exit"
 	}
 	return "monitor"
 }
@@ -443,6 +445,9 @@ func cmdCheck(args []string) int {
 					}
 					if got == cases[j].Expect {
 						f.Replayed = "confirmed"
+						validated++
+					} else if f.Kind == "fatal" && (strings.HasPrefix(got, "no-result: exit status") || got == "process-exit") {
+						f.Replayed = "confirmed (the native process exits: " + got + ")"
 						validated++
 					} else if strings.HasPrefix(got, "assert-fail:") && assertLabels[f.Harness+"|"+strings.TrimPrefix(got, "assert-fail:")] {
 						// natively the run stops at the first failing assertion; the engine goes on and
@@ -777,6 +782,9 @@ func cmdReplay(args []string) int {
 		fmt.Printf("native run produced no result: %s\n", status)
 	}
 	fmt.Printf("expected for the violation: %s\n", c.Expect)
+	if c.Expect == "process-exit" && res[0] == nil && strings.Contains(status, "exit status") {
+		got = "process-exit" // the library ended the native process (log.Fatal)
+	}
 	if got == c.Expect || (c.Expect == "alloc" && (got == "panic" || (res[0] != nil && res[0].OverAlloc))) {
 		fmt.Println("REPRODUCED")
 		return 1
